@@ -403,7 +403,7 @@ Definition pklen (c : curve) : nat := match c with Ed => 32 | Sp => 33 | P2 => 3
 Record sig_laws (P : prims) : Prop := {
   sl_b58 : b58_laws P;
   sl_ed : forall seed pk sk d, ed_seed_keypair P seed = Some (pk, sk) ->
-      ed_sk_to_pk P sk = Some pk /\ length sk = 64 /\ length pk = 32 /\
+      ed_sk_to_pk P sk = Some pk /\ length seed = 32 /\ length sk = 64 /\ length pk = 32 /\
       exists s, ed_sign P d sk = Some s /\ length s = 64 /\ ed_verify P s d pk = PTrue;
   sl_sp : forall sk pk d, sp_pk P sk = Some pk ->
       length pk = 33 /\ sp_decode P pk = PTrue /\
